@@ -82,6 +82,12 @@ theorem cancel_after_finish_without_flag_is_inert (c : Cfg) (s : State) (id : Na
     hCancelWorkflow c s id = [[.mark id]] := by
   simp [hCancelWorkflow, h, hc]
 
+/-- F56: a `JumpToStage` handled after a cancel was accepted is consumed without effect: it neither completes its source
+stage nor resets or skips any other stage, for every source, target and state. -/
+theorem jump_after_cancel_is_inert (c : Cfg) (s : State) (id src tgt : Nat) (hc : s.canceled = true) :
+    hJumpToStage c s id src tgt = [[.mark id]] := by
+  simp [hJumpToStage, hc]
+
 /-- `CancelStage` drives every incomplete stage to CANCELED together with its unfinished tasks. -/
 theorem cancel_stage_cancels (c : Cfg) (s : State) (id i : Nat) (h : (s.stage i).status.isComplete = false) :
     ∃ st', hCancelStage c s id i = [[.setStage i st', .mark id]] ∧ st'.status = .canceled ∧
